@@ -17,7 +17,7 @@ func (e *Env) auditLoadRule(rule string) {
 	p := e.P
 	ai := p.Func("FileIP.AuditInfo")
 	um := p.Func("UnmarshalAuditInfoJSONFile")
-	cache := p.FieldVar("scipipe", "BaseIP", "auditInfo")
+	cache := e.auditCacheField()
 	obLoad := r.Ob(rule, "(*FileIP).AuditInfo:nil⇒load", "with an empty cache the record is loaded from <Path>.audit.json (not freshly created) before AuditInfo returns")
 	obLock := r.Ob(rule, "(*FileIP).AuditInfo:lock", "the cache is read and filled with the IP lock held")
 	if ai == nil || um == nil || cache == nil {
@@ -64,7 +64,7 @@ func (e *Env) auditLoadRule(rule string) {
 		held := li.held(li.must[n])
 		ok := false
 		for _, h := range held {
-			if strings.HasSuffix(h, ".lock") {
+			if strings.HasSuffix(h, "."+e.ipLockName()) {
 				ok = true
 			}
 		}
